@@ -108,3 +108,19 @@ func (n *node) cancel(err error) {
 		k.cancel(err)
 	}
 }
+
+// WithTimeout / WithDeadline: a cancelable node plus a virtual-time timer whose expiry cancels it with
+// DeadlineExceeded (the expiry is a goroutine of its own, as in the runtime).  Deadline() keeps reporting "none".
+func WithTimeout(parent Context, d time.Duration) (Context, CancelFunc) {
+	ctx, cancel := WithCancel(parent)
+	n := ctx.(nodeCtx).node
+	t := vs.AfterFunc(d, func() { n.cancel(context.DeadlineExceeded) })
+	return ctx, func() {
+		t.Stop()
+		cancel()
+	}
+}
+
+func WithDeadline(parent Context, deadline time.Time) (Context, CancelFunc) {
+	return WithTimeout(parent, deadline.Sub(vs.Now()))
+}
